@@ -843,3 +843,45 @@ pub fn mutate(s: &str, rng: &mut Rng) -> String {
     }
     out.into_iter().collect()
 }
+
+/// long member names (100..600 bytes) that are plain except for one or two special characters at a
+/// random position: a long name whose only special character is a backslash, a quote, a control
+/// or a multi-byte character takes a different route through an escaper that looks at a name as a
+/// whole than a name that is dense in such characters
+pub fn sparse_long_names(rng: &mut Rng) -> Vec<String> {
+    let specials: [&str; 16] = ["\\", "'", "\"", "\u{1}", "\n", "\t", "\u{7f}", "\u{e9}", "\u{1f600}", "/", "\\t", "\\n", "\\u0041", "\\'", "\u{0}", ""];
+    let mut out = vec![];
+    for len in [100usize, 127, 128, 129, 160, 255, 256, 257, 300, 600] {
+        for sp in specials.iter() {
+            let mut chars: Vec<String> = (0..len).map(|i| ((b'a' + ((i * 7 + len + sp.len()) % 26) as u8) as char).to_string()).collect();
+            let at = rng.below(len as u64) as usize;
+            chars[at] = sp.to_string();
+            if rng.chance(1, 3) {
+                let at2 = rng.below(len as u64) as usize;
+                chars[at2] = sp.to_string();
+            }
+            let name: String = chars.concat();
+            if !out.contains(&name) {
+                out.push(name);
+            }
+        }
+    }
+    out
+}
+
+/// unions of two slices with every combination of small bounds (absent, -3..4): adjacent,
+/// overlapping, empty and sign-crossing pairs such as [-2:1,1:] - child and descendant form
+pub fn slice_pair_queries() -> Vec<String> {
+    let bounds = ["", "-3", "-2", "-1", "0", "1", "2", "4"];
+    let mut out = vec![];
+    for a in bounds {
+        for b in bounds {
+            for c in bounds {
+                for d in bounds {
+                    out.push(format!("[{}:{},{}:{}]", a, b, c, d));
+                }
+            }
+        }
+    }
+    out
+}
